@@ -80,7 +80,19 @@ def run_case(rng, idx, tier, lane, ctx):
         # first component against minus the others: the comparison scale is then the size of the terms, not of the (cancelling) total
         eq, how = same_expr(comps[0], -sum(comps[1:], sympy.Integer(0)), rng, names)
         if not eq:
-            bad("components of the reported ODE of a transition-only model do not sum to zero", total=str(tot)[:400])
+            # the reported expressions may have combined float coefficients of the definition (0.05*2 - 0.1 = 1.4e-17): judge the total
+            # against the size of the flows of the DEFINITION (sum over events of |rate| x |magnitudes|) at random points
+            Rref, Vref = ref.R, ref.V
+            worst = 0.0
+            syms_ = sorted(tot.free_symbols | Rref.free_symbols, key=lambda q: q.name)
+            for _ in range(5):
+                sub = {q: sympy.Float(rng.uniform(0.3, 3.0), 30) for q in syms_}
+                flow = sum(abs(sympy.N(Rref[j].subs(sub), 30)) * sum(abs(sympy.N(Vref[i, j].subs(sub), 30)) for i in range(Vref.shape[0]))
+                           for j in range(Vref.shape[1]))
+                worst = max(worst, float(abs(sympy.N(tot.subs(sub), 30)) / (flow + sympy.Float(10) ** -30)))
+            counters["symbolic_sums_judged_numerically"] = counters.get("symbolic_sums_judged_numerically", 0) + 1
+            if worst > 1e-12:
+                bad("components of the reported ODE of a transition-only model do not sum to zero", total=str(tot)[:400], relative_to_flows=worst)
         for _ in range(3):
             x, t, th = G.eval_point(rng, spec)
             m.parameters = th
@@ -96,7 +108,9 @@ def run_case(rng, idx, tier, lane, ctx):
     grid = np.linspace(0, horizon_det, rng.randint(4, 10))[1:]
     x0f = [float(v) for v in x0]
     tol = 1e-6 * (1 + sum(abs(v) for v in x0f))
-    for name in ("integrate", "integrate2"):
+    for name in (("integrate", "integrate2") if not spec.get("huge_population") else ()):
+        # (populations of 1e8..2e9 with mass-action rates give time scales of 1e-9: "within solver tolerance" says nothing there; the
+        # multi-scale cases are for the stochastic clauses)
         try:
             m.initial_values = (x0f, np.float64(0.0))
             with contextlib.redirect_stdout(io.StringIO()), np.errstate(all="ignore"):
